@@ -1,9 +1,9 @@
 #!/bin/bash
-# tools/confirm_seed.sh <Cxx> <variant> [seed root, default /tmp/seedwork]
+# tools/confirm_seed.sh <Cxx> <variant> [seed root, default /tmp/seedwork] [worktree prefix, default /tmp/wt_]
 # Confirms a seeded change in the scratch worktree /tmp/wt_<Cxx>: clean tree -> demo passes; patch applies, builds,
 # the repository's tests pass, demo fails; tree restored.  Prints one CONFIRM line.
 P=$1; V=$2; ROOT=${3:-/tmp/seedwork}
-WT=/tmp/wt_$P; SD=$ROOT/$P/$V
+WT=${4:-/tmp/wt_}$P; SD=$ROOT/$P/$V
 export CARGO_TARGET_DIR=$WT/target CARGO_NET_OFFLINE=true WT
 git -C $WT checkout -q -- . ; git -C $WT clean -qfd -e target
 DEMO=$SD/demo/demo.sh
